@@ -220,6 +220,15 @@ setup:
 		}
 
 		setup_task_handle(handle, task, tid);
+
+		/*
+		 * The elapsed time (-r 1ms~, -f elapsed) counts from the oldest
+		 * record of the whole recording, whatever tasks are selected and
+		 * in whatever order they are listed: the first record of the
+		 * selected tasks counts as well, before any record is checked
+		 * against the time range.
+		 */
+		fstack_peek_first_timestamp(handle, task);
 	}
 
 	free(filter_tids);
@@ -1296,6 +1305,18 @@ static int __read_task_ustack(struct uftrace_task_reader *task)
 	}
 
 	return 0;
+}
+
+/* look at the first record of @task for the origin of the elapsed time and put it back */
+void fstack_peek_first_timestamp(struct uftrace_data *handle, struct uftrace_task_reader *task)
+{
+	if (task->fp == NULL)
+		return;
+
+	if (!__read_task_ustack(task))
+		update_first_timestamp(handle, task, &task->ustack);
+
+	rewind(task->fp);
 }
 
 static int read_task_arg(struct uftrace_task_reader *task, struct uftrace_arg_spec *spec)
